@@ -1,191 +1,13 @@
-"""Helpers shared by the "pure rule" checks (C28, C33, C34, C39, C40).
-
-These checks bind a stateless Go function to a TLA+ operator row by row:
-  * rows_tv():   the Go driver logs one ndjson line per call of the real function ({"ev":"row", ...}); a
-                 <Mod>_Trace spec evaluates the operator / property on every line.  Unlike a stateful trace a bad
-                 row does not make the rest unexplainable, so the trace spec prints
-                 <<"ROW_REJECTED", line, reason>> and keeps going; every rejected row is reported.
-                 The file is split into parts validated by parallel TLC processes (-workers 1 each).
-  * rows_num():  rows whose values exceed TLC's 32-bit integers are rendered as literal conjuncts over the
-                 same operator module and evaluated by Apalache (chunks of rows are separate invariants; the
-                 first FALSE row is named by Apalache, the rows behind it are re-run, up to a cap).
-Nothing here decides a verdict in Python: a row is good or bad because TLC / Apalache evaluated the TLA+ text.
-"""
-import concurrent.futures
-import json
-import os
-import re
-import shutil
-
+import importlib.util, os
 import vlib
-
-_REJ = re.compile(r'<<"ROW_REJECTED", (\d+), "([^"]*)">>')
-_NOTE = re.compile(r'<<"ROW_(DRIFT|NOTE)", (\d+)(?:, "([^"]*)")?>>')
-
-
-def stage(ctx, name):
-    """log elapsed wall time per stage (also kept in the evidence) - the machine is shared, timings vary"""
-    import time
-    now = time.time()
-    last = getattr(ctx, "_stage_t", ctx.t0)
-    ctx._stage_t = now
-    ctx.cov.setdefault("stage_wall_s", {})[name] = round(now - last, 1)
-    vlib.log("stage %-14s %.1fs" % (name, now - last))
+_s = importlib.util.spec_from_file_location("_chain", os.path.join(os.path.dirname(__file__), "_chain.py"))
+ch = importlib.util.module_from_spec(_s)
+_s.loader.exec_module(ch)
+FILES = ["verif_harness_test.go", "verif_exec_test.go", "verif_rules_test.go"]
 
 
-class Background:
-    """run fn(*a, **kw) in a thread; result() re-raises its exception (Infra stays Infra)"""
-
-    def __init__(self, fn, *a, **kw):
-        self._ex = concurrent.futures.ThreadPoolExecutor(max_workers=1)
-        self._f = self._ex.submit(fn, *a, **kw)
-
-    def result(self):
-        try:
-            return self._f.result()
-        finally:
-            self._ex.shutdown(wait=False)
-
-
-def read_rows(path):
-    with open(path) as fh:
-        return [l for l in fh.read().splitlines() if l.strip()]
-
-
-def rows_tv(ctx, module, cfg, path, label, parts=4, timeout=900, min_part=4000):
-    """Validate every row of an ndjson file (first line {"ev":"reset"}) with the row-wise trace spec.
-    Returns (rejected, notes, nrows): rejected = [(row_obj, reason, line_no)], notes likewise (non-verdict)."""
-    lines = read_rows(path)
-    if not lines or json.loads(lines[0]).get("ev") != "reset":
-        raise vlib.Infra("row file %s does not start with a reset line" % path)
-    rows = lines[1:]
-    if not rows:
-        raise vlib.Infra("driver produced no rows in %s" % path)
-    parts = max(1, min(parts, len(rows) // min_part or 1))
-    size = (len(rows) + parts - 1) // parts
-    jobs = []
-    for p in range(parts):
-        chunk = rows[p * size:(p + 1) * size]
-        if not chunk:
-            continue
-        pp = os.path.join(ctx.work, "rows-%s-%d.ndjson" % (label, p))
-        with open(pp, "w") as fh:
-            fh.write(lines[0] + "\n" + "\n".join(chunk) + "\n")
-        jobs.append((p, pp, p * size, len(chunk)))
-
-    def one(job):
-        p, pp, off, n = job
-        return job, vlib.run_tlc(ctx, "tv-%s-%d" % (label, p), module, cfg, workers=1, env={"TRACE": pp},
-                                 timeout=timeout, heap="4g")
-
-    rejected, notes, states = [], [], 0
-    with concurrent.futures.ThreadPoolExecutor(max_workers=len(jobs)) as ex:
-        results = list(ex.map(one, jobs))
-    for (p, pp, off, n), res in results:
-        out = res["out"]
-        m = re.search(r'TRACE_HWM"?,? ?(\d+)', out)
-        if not m or int(m.group(1)) != n + 1 or "Error:" in out:
-            raise vlib.Infra("row validation (%s part %d) did not consume its %d rows:\n%s" % (module, p, n, out[-2500:]))
-        states += res.get("distinct", 0)
-        for mm in _REJ.finditer(out):
-            ln = int(mm.group(1))          # line in the part file: 1 = reset, row i is line i+1
-            rejected.append((json.loads(rows[off + ln - 2]), mm.group(2), off + ln - 1))
-        for mm in _NOTE.finditer(out):
-            ln = int(mm.group(2))
-            notes.append((json.loads(rows[off + ln - 2]), mm.group(1) + (":" + mm.group(3) if mm.group(3) else ""),
-                          off + ln - 1))
-        os.remove(pp)
-    ctx.add("trace_events_validated", len(rows))
-    ctx.add("trace_states", states)
-    rejected.sort(key=lambda r: r[2])
-    return rejected, notes, len(rows)
-
-
-def failures_from(ctx, rejected, signature_fn, label, cap=5, only_base=0):
-    """Turn rejected rows into the failure dicts vlib.report_failures expects (one replay artefact per
-    distinct signature, at most `cap`).  Row numbers are 1-based and double as VERIF_ONLY for --replay."""
-    fails, seen = [], set()
-    for row, reason, no in rejected:
-        sig = signature_fn(row, reason)
-        if sig in seen:
-            continue
-        seen.add(sig)
-        f = {"event": row, "invariant": reason, "signature": sig}
-        if len(fails) < cap:
-            f["replay"] = vlib.save_replay(ctx, {"property": ctx.prop, "seed": ctx.seed, "tier": ctx.tier,
-                                                "only": ctx.only if ctx.only is not None else only_base + no, "engine": label, "reason": reason,
-                                                "signature": sig, "row": row},
-                                           name="%s-seed%d-%s-row%d.json" % (ctx.tier, ctx.seed, label, no))
-        fails.append(f)
-    return fails
-
-
-# ----------------------------------------------------------------------------------------------- Apalache
-def _apalache_module(name, extends, chunks, prelude=""):
-    t = ["---- MODULE %s ----" % name, "EXTENDS " + ", ".join(extends), "VARIABLE", "  \\* @type: Int;", "  dummy",
-         prelude, "Init == dummy = 0", "Next == UNCHANGED dummy"]
-    for cname, conj in chunks:
-        # "(row) = TRUE" keeps Apalache from splitting a row into several verification conditions, so that the
-        # index in "state invariant K violated" is the index of the row (probed with Apalache 0.58)
-        t.append("%s ==\n  /\\ " % cname + "\n  /\\ ".join("(%s) = TRUE" % c for c in conj))
-    t.append("====")
-    return "\n".join(t) + "\n"
-
-
-def _apalache(ctx, name, extends, spec_files, chunks, label, timeout, prelude=""):
-    """Returns None when every row holds, else the flat index of the first row Apalache evaluated to FALSE."""
-    d = ctx.sub("apa-" + label)
-    for f in spec_files:
-        shutil.copy(os.path.join(vlib.SPEC, f), d)
-    text = _apalache_module(name, extends, chunks, prelude)
-    ok, out = vlib.apalache_check(ctx, text, name, ",".join(c for c, _ in chunks), label=label, timeout=timeout)
-    nrows = sum(len(c) for _, c in chunks)
-    m = re.search(r"Checking (\d+) state invariants", out)
-    if not m or int(m.group(1)) != nrows:
-        raise vlib.Infra("apalache checked %s verification conditions for %d rows:\n%s"
-                         % (m.group(1) if m else "no", nrows, out[-1500:]))
-    if ok:
-        return None
-    m = re.search(r"state invariant (\d+) violated", out)
-    if not m:
-        raise vlib.Infra("apalache reported an error without naming the invariant:\n" + out[-2000:])
-    return int(m.group(1))
-
-
-def rows_num(ctx, extends, spec_files, rows, label, chunk=25, cap=2, timeout=900, procs=4, prelude=""):
-    """rows = [(conjunct_text, row_obj)].  Returns list of row_objs whose conjunct Apalache evaluated to FALSE
-    (at most `cap` per process; the number of rows left unevaluated after reaching the cap is recorded)."""
-    if not rows:
-        raise vlib.Infra("no rows for the num engine (%s)" % label)
-    procs = max(1, min(procs, (len(rows) + chunk - 1) // chunk))
-    groups = [rows[i::procs] for i in range(procs)]
-
-    def run_group(gi):
-        mybad, done, pending, rnd = [], 0, list(groups[gi]), 0
-        while pending:
-            rnd += 1
-            named = [("Chunk%d" % i, [c for c, _ in pending[i:i + chunk]]) for i in range(0, len(pending), chunk)]
-            k = _apalache(ctx, "Rows", extends, spec_files, named, "%s-g%d-r%d" % (label, gi, rnd), timeout, prelude)
-            if k is None:
-                return mybad, done + len(pending), 0
-            mybad.append(pending[k][1])
-            done += k + 1
-            pending = pending[k + 1:]
-            if len(mybad) >= cap:
-                return mybad, done, len(pending)
-        return mybad, done, 0
-
-    with concurrent.futures.ThreadPoolExecutor(max_workers=len(groups)) as ex:
-        res = list(ex.map(run_group, range(len(groups))))
-    bad, evaluated = [], 0
-    for mybad, done, left in res:
-        bad += mybad
-        evaluated += done
-        if left:
-            ctx.add("num_rows_unevaluated_after_failures", left)
-    ctx.add("num_rows_evaluated_by_apalache", evaluated)
-    return bad
-
-
-def tla_seq(xs):
-    return "<<" + ", ".join(tla_seq(x) if isinstance(x, list) else str(x) for x in xs) + ">>"
+def run_mode(ctx, mode, scenarios, label):
+    files = ch.record(ctx, "^TestVerifChainRules$", mode, scenarios, files=FILES)
+    feats = ch.stats(ctx, files)
+    fails = ch.validate(ctx, files, label)
+    return feats, fails
